@@ -295,7 +295,7 @@ func (c *run) write(k int) error {
 		}
 		evs := make([]*api.LogEvent, 0, n)
 		for i := 0; i < n; i++ {
-			evs = append(evs, &api.LogEvent{Timestamp: int64(c.total + 1), Message: "m" + strconv.Itoa(c.total)})
+			evs = append(evs, &api.LogEvent{Timestamp: int64(c.total + 1), Message: "m" + strconv.Itoa(c.total), Fields: fieldsOf(c.total)})
 			c.total++
 		}
 		var wr api.WriteResult
@@ -325,6 +325,15 @@ func (c *run) write(k int) error {
 	}
 	c.note("write: the newest event %s was not readable 3 s after the write (probe: err=%v res.Err=%v events=%d first=%q)", want, derr, dbg.Err, len(dbg.Events), first)
 	return nil
+}
+
+// fieldsOf: the fields event i is written with — consecutive events differ, the encoded lengths are equal (a reader that
+// caches the fields of the previous event by reference or by length would hand over the neighbour's)
+func fieldsOf(i int) string {
+	if i%2 == 0 {
+		return "lvl=info"
+	}
+	return "lvl=warn"
 }
 
 func msgIdx(m string) int {
@@ -403,6 +412,9 @@ func (s caseSink) OnEvent(evs []*api.LogEvent) error {
 	prev := -1
 	for i, e := range evs {
 		x := msgIdx(e.Message)
+		if x >= 0 && e.Fields != fieldsOf(x) && o.bad == "" {
+			o.bad = fmt.Sprintf("content: event m%d was written with the fields %q and is handed to the sink with %q", x, fieldsOf(x), e.Fields)
+		}
 		if i == 0 {
 			o.start = x
 		} else if x != prev+1 && o.bad == "" {
@@ -474,7 +486,7 @@ func (f *faultyClient) Query(ctx context.Context, qr *api.QueryRequest, qres *ap
 // stored one and a next-request that points nowhere. A worker that forgets one of the two error checks hands the junk
 // event to the sink, which the delivery oracle sees as a gap.
 func junk(qr *api.QueryRequest, qres *api.QueryResult) {
-	qres.Events = []*api.LogEvent{{Timestamp: 1, Message: "m900000000"}}
+	qres.Events = []*api.LogEvent{{Timestamp: 1, Message: "m900000000", Fields: fieldsOf(900000000)}}
 	qres.NextQueryRequest = api.QueryRequest{Query: qr.Query, Pos: "junk", Limit: qr.Limit, WaitTimeout: qr.WaitTimeout}
 }
 
@@ -810,7 +822,11 @@ func (c *run) analyse() verdict {
 				if strings.HasPrefix(o.bad, "out") {
 					k = "out-of-order"
 				}
-				fail(k, "the events of one batch are not consecutive stored events", o.bad, "consecutive events")
+				if strings.HasPrefix(o.bad, "content") {
+					fail("event-content-differs", "an event handed to the sink is not the stored event (fields)", o.bad, "the event as it was written")
+				} else {
+					fail(k, "the events of one batch are not consecutive stored events", o.bad, "consecutive events")
+				}
 			}
 			if expected < 0 {
 				spans[s] = span{o.start, o.start}
